@@ -144,11 +144,37 @@ class Reader:
         ]
         return data
 
+    @staticmethod
+    def _validate_segments_layout(segments: List[Tuple[int, int, int, int]]) -> None:
+        """
+        the segment table must be one the fjm-writer can produce: non-empty, 2w-aligned segments that hold
+        their whole data and don't overlap each other. anything else is a damaged file.
+        """
+        for segment_start, segment_length, _, data_length in segments:
+            if segment_length == 0 or segment_start % 2 == 1 or segment_length % 2 == 1:
+                raise FlipJumpReadFjmException(
+                    f"Bad .fjm file: segment [{segment_start}, {segment_start + segment_length}) must be non-empty, "
+                    f"and its start and length must be even (2*w aligned)."
+                )
+            if data_length > segment_length:
+                raise FlipJumpReadFjmException(
+                    f"Bad .fjm file: segment data-length {data_length} is bigger "
+                    f"than the segment-length {segment_length}."
+                )
+        previous_end = 0
+        for segment_start, segment_length, _, _ in sorted(segments):
+            if segment_start < previous_end:
+                raise FlipJumpReadFjmException(
+                    f"Bad .fjm file: overlapping segments (at word address {segment_start})."
+                )
+            previous_end = segment_start + segment_length
+
     def _init_memory(self, segments: List[Tuple[int, int, int, int]], data: List[int]) -> None:
         self.memory = {}
         self.zeros_boundaries = []
 
         self.memory_segments: List[MemorySegment] = []
+        self._validate_segments_layout(segments)
         for segment_start, segment_length, data_start, data_length in segments:
             # data is laid out as (flip-word, jump-word) op-pairs, so its length must be even
             #  (the relative-jump reconstruction below relies on this).
